@@ -290,6 +290,7 @@ func (jb *JitterBuffer) Clear(resetState bool) {
 	jb.packets.Clear()
 
 	if resetState {
+		jb.playoutReady = false
 		jb.lastSequence = 0
 		jb.state = Buffering
 		jb.stats = Stats{0, 0, 0}
